@@ -376,6 +376,17 @@ pub struct WriteTxn<'a> {
 }
 
 impl<'a> WriteTxn<'a> {
+    /// Remembers the writes buffered so far; see [`WriteTxn::rollback_to`].
+    pub fn savepoint(&self) -> nervusdb_storage::engine::Savepoint {
+        self.inner.savepoint()
+    }
+
+    /// Drops every write buffered since `savepoint` was taken, e.g. those of a statement that
+    /// failed half way. The transaction stays open.
+    pub fn rollback_to(&mut self, savepoint: nervusdb_storage::engine::Savepoint) {
+        self.inner.rollback_to(savepoint)
+    }
+
     /// Creates a new node with the given external ID and label.
     ///
     /// Returns the internal node ID for use in subsequent operations.
